@@ -16,7 +16,7 @@ Inductive lstage := LIdle | LDrain | LCbPing.        (* LCbPing: inside the call
 Record lthread := mkLT { lt_ops : list lop; lt_stage : lstage; lt_cbpings : nat; lt_cbhandle : bool }.
 (* lt_cbpings: callbacks that still ping their own source; lt_cbhandle: the callback owns a clone of the handle *)
 
-Inductive cpev := PStep (tid : nat) (yid : N) | PCallback | PRemoved.
+Inductive cpev := PStep (tid : nat) (yid : N) | PCallback | PRemoved | PReturned (tid : nat).   (* PReturned: a ping() call returned *)
 
 Record cpst := mkCP {
   ctr : N;                 (* eventfd counter *)
@@ -49,7 +49,7 @@ Definition pt_step (s : cpst) (i : nat) (t : pthread) : cpst * pthread :=
     match pt_ops t with
     | [] => (s, t)
     | PPing :: r =>
-        (mkCP (ctr s + INCREMENT_PING) (handles s) (registered s) (lp s) (thr s) (undrained s + 1) (closemark s) (closes s) (log Y_PING),
+        (mkCP (ctr s + INCREMENT_PING) (handles s) (registered s) (lp s) (thr s) (undrained s + 1) (closemark s) (closes s) (PReturned (S i) :: log Y_PING),
          mkPT r (pt_mine t) false)
     | PClone :: r =>
         (mkCP (ctr s) (handles s + 1) (registered s) (lp s) (thr s) (undrained s) (closemark s) (closes s) (log Y_CLONE),
@@ -96,7 +96,7 @@ Definition lp_step (s : cpst) : cpst :=
   | LCbPing =>
       (* the callback pings its own source (it holds a clone of the handle, counted in `handles`) *)
       mkCP (ctr s + INCREMENT_PING) (handles s) (registered s) (mkLT (lt_ops l) LIdle (lt_cbpings l) (lt_cbhandle l)) (thr s) (undrained s + 1) (closemark s) (closes s)
-           (PStep 0 Y_PING :: tr s)
+           (PReturned 0 :: PStep 0 Y_PING :: tr s)
   end.
 
 Fixpoint upd_thr (l : list pthread) (i : nat) (t : pthread) : list pthread :=
